@@ -22,11 +22,14 @@ PROP = "C18"
 G = 3            # rows (= pages) of the real database per model page
 
 # which finding shapes may explain which kind of violation (validated by the as-is model: invariants G* of Vfs.tla)
-ALLOWED = {"ServedMissing": {"V1", "V3"}, "ServedStale": {"V3"}, "SizeBig": {"V2", "V3"}, "SizeSmall": {"V1", "V3"},
+# (ServedStale / V1: with the page cache at its default size the entries the replaced index lost are served from whatever the cache
+#  still holds - an older version when the page changed in between; checked with the candidate repair of V1: the case passes)
+ALLOWED = {"ServedMissing": {"V1", "V3"}, "ServedStale": {"V3", "V1"}, "SizeBig": {"V2", "V3"}, "SizeSmall": {"V1", "V3"},
            "Available": {"V4"}}
 WHAT = {
     "V1": "poll replaces the whole page index when a polled file shrinks the database (vfs.go:2664): pages the shrinking "
-          "transaction did not rewrite are 'page not found' / file size too small",
+          "transaction did not rewrite are 'page not found' / file size too small - or, with the page cache enabled, served in whatever "
+          "older version the cache still holds",
     "V2": "buildIndexMap keeps page entries above the final commit (vfs.go:1251): a VFS opened (or time-travelled) over a "
           "shrink reports a larger file size than the restore",
     "V3": "one poll that consumes a level-1 file and a newer level-0 file lays the older level-1 entries over the "
